@@ -106,6 +106,10 @@ class WebBrowser(Application, discriminator="web-browser"):
 
         try:
             parsed_url = urlparse(url)
+            if parsed_url.hostname is None:
+                # a URL given without a scheme (``example.com``): the domain is still within it
+                url = f"http://{url}"
+                parsed_url = urlparse(url)
         except Exception:
             self.sys_log.warning(f"{url} is not a valid URL")
             return False
